@@ -19,6 +19,11 @@ type Case struct {
 	IJ      []DVal  `json:"ij"`                // injected data sets (maps); a null entry = no $ij
 	Chaos   bool    `json:"chaos,omitempty"`
 	Entries []Entry `json:"entries"` // what to render
+	// GlobalsFile: the globals reach the bundle through AddGlobalsFile instead of AddGlobalsMap
+	GlobalsFile bool `json:"globals_file,omitempty"`
+	// OneError: the bundle was made invalid by exactly one injected error, so the compile error
+	// text must not depend on the order in which the files are added
+	OneError bool `json:"one_error,omitempty"`
 }
 
 // Entry names a template and the data/ij set to render it with.
